@@ -496,6 +496,15 @@ func (ef *Filter) filterTaggable(ctx context.Context, t Taggable, filterOverride
 	if err != nil {
 		return fmt.Errorf("%s: %w", op, err)
 	}
+	// Track a taggable map even when none of its tags apply (or it has none),
+	// otherwise its remaining fields would never be filtered as secrets.
+	if v := reflect.ValueOf(t); v.Kind() == reflect.Map || (v.Kind() == reflect.Ptr && !v.IsNil() && v.Elem().Kind() == reflect.Map) {
+		if _, ok := tm.getTracked(v.Pointer()); !ok {
+			if err := tm.trackMap(&tMap{value: v, filteredFields: map[string]struct{}{}}); err != nil {
+				return fmt.Errorf("%s: %w", op, err)
+			}
+		}
+	}
 	for _, pt := range tags {
 		value, err := pointerstructure.Get(t, pt.Pointer)
 		if err != nil {
